@@ -100,6 +100,11 @@ func newResultGroupJob[T, R any](bufferSize int) *resultGroupJob[T, R] {
 		wgc: helpers.NewWgCounter(bufferSize),
 	}
 
+	// an empty batch has no item that could ever close the stream
+	if bufferSize == 0 {
+		gj.Response.Close()
+	}
+
 	return gj
 }
 
@@ -139,9 +144,8 @@ func (gj *resultGroupJob[T, R]) Close() error {
 		return err
 	}
 
-	gj.wgc.Done()
-
-	if gj.wgc.Count() == 0 {
+	// only the item that takes the counter to zero closes the shared stream
+	if gj.wgc.Done() {
 		gj.Response.Close()
 	}
 
@@ -167,7 +171,7 @@ type EnqueuedErrGroupJob interface {
 }
 
 func newErrorGroupJob[T any](bufferSize int) *errorGroupJob[T] {
-	return &errorGroupJob[T]{
+	gj := &errorGroupJob[T]{
 		errorJob: errorJob[T]{
 			job: job[T]{
 				wg: sync.WaitGroup{},
@@ -176,6 +180,13 @@ func newErrorGroupJob[T any](bufferSize int) *errorGroupJob[T] {
 		},
 		wgc: helpers.NewWgCounter(bufferSize),
 	}
+
+	// an empty batch has no item that could ever close the stream
+	if bufferSize == 0 {
+		gj.Response.Close()
+	}
+
+	return gj
 }
 
 func (gj *errorGroupJob[T]) NumPending() int {
@@ -214,9 +225,8 @@ func (gj *errorGroupJob[T]) Close() error {
 		return err
 	}
 
-	gj.wgc.Done()
-
-	if gj.wgc.Count() == 0 {
+	// only the item that takes the counter to zero closes the shared stream
+	if gj.wgc.Done() {
 		gj.Response.Close()
 	}
 
